@@ -190,10 +190,10 @@ func (p *c04Proxy) setDown(d bool) {
 }
 
 var (
-	c04Mini    *miniredis.Miniredis
-	c04Px      *c04Proxy
-	c04Jobs    = make(chan func())
-	c04JobDone = make(chan struct{})
+	c04Mini      *miniredis.Miniredis
+	c04Px        *c04Proxy
+	c04Jobs      = make(chan func())
+	c04JobDone   = make(chan struct{})
 	c04Rotations int
 )
 
@@ -537,29 +537,46 @@ func c04RpcInterp(t *testing.T, c c04RpcCase) (v kit.Verdict) {
 				ran := 0
 				var callErr error
 				t0 := time.Now()
-				switch op.Via {
-				case "unary":
-					var resp interface{}
-					resp, callErr = unary[inst](ctx, "req", &grpc.UnaryServerInfo{FullMethod: method}, func(ctx context.Context, req interface{}) (interface{}, error) {
-						ran++
-						return "resp", nil
-					})
-					if callErr == nil && resp != "resp" {
-						fail = fmt.Sprintf("op %d: unary interceptor lost the handler's response: %v", i, resp)
-						return
+				panicked := ""
+				func() {
+					defer func() {
+						// behind rpc.NewServer the crash interceptor would turn a panic into
+						// codes.Internal; here it is reported as what it is
+						if p := recover(); p != nil {
+							panicked = fmt.Sprint(p)
+						}
+					}()
+					switch op.Via {
+					case "unary":
+						var resp interface{}
+						resp, callErr = unary[inst](ctx, "req", &grpc.UnaryServerInfo{FullMethod: method}, func(ctx context.Context, req interface{}) (interface{}, error) {
+							ran++
+							return "resp", nil
+						})
+						if callErr == nil && resp != "resp" {
+							fail = fmt.Sprintf("op %d: unary interceptor lost the handler's response: %v", i, resp)
+							return
+						}
+					case "stream":
+						callErr = stream[inst](nil, c04Stream{ctx: ctx}, &grpc.StreamServerInfo{FullMethod: method}, func(srv interface{}, ss grpc.ServerStream) error {
+							ran++
+							return nil
+						})
+					default:
+						callErr = auths[inst].Authenticate(ctx)
+						if callErr == nil {
+							ran = 1
+						}
 					}
-				case "stream":
-					callErr = stream[inst](nil, c04Stream{ctx: ctx}, &grpc.StreamServerInfo{FullMethod: method}, func(srv interface{}, ss grpc.ServerStream) error {
-						ran++
-						return nil
-					})
-				default:
-					callErr = auths[inst].Authenticate(ctx)
-					if callErr == nil {
-						ran = 1
-					}
-				}
+				}()
 				t1 := time.Now()
+				if fail != "" {
+					return
+				}
+				if panicked != "" {
+					fail = fmt.Sprintf("op %d %+v (instance %d strict=%v, fault=%q): the authenticator panicked: %s", i, op, inst, stricts[inst], faultKind, panicked)
+					return
+				}
 				admitted := callErr == nil
 				shownTok := tok
 				what := fmt.Sprintf("op %d %+v (token sent %q, instance %d strict=%v, fault=%q, store=%v)", i, op, shownTok, inst, stricts[inst], faultKind, store)
